@@ -105,6 +105,7 @@ struct Srv {
     client: Client,
     rx: Option<IpcReceiver<OMsg>>,
     accepting: Option<std::sync::mpsc::Receiver<Result<(IpcReceiver<OMsg>, OMsg), String>>>,
+    accept_thread: Option<std::thread::JoinHandle<()>>,
 }
 
 fn fs_state(name: &str) -> (bool, bool) {
@@ -162,7 +163,7 @@ fn behaviour(b: &Value, mode: &str, all_names: &mut HashSet<String>) -> Value {
                         return fail(n, op, "socket path missing after creation".into());
                     }
                 }
-                srvs.insert(i, Srv { server: Some(server), name: sname, client: Client::None, rx: None, accepting: None });
+                srvs.insert(i, Srv { server: Some(server), name: sname, client: Client::None, rx: None, accepting: None, accept_thread: None });
             },
             "connect" => {
                 let s = srvs.get_mut(&i).unwrap();
@@ -216,11 +217,12 @@ fn behaviour(b: &Value, mode: &str, all_names: &mut HashSet<String>) -> Value {
                 let server = s.server.take().unwrap();
                 let (tx, rx) = std::sync::mpsc::channel();
                 let (ttx, trx) = std::sync::mpsc::channel();
-                std::thread::spawn(move || {
+                let jh = std::thread::spawn(move || {
                     let _ = ttx.send(unsafe { libc::syscall(libc::SYS_gettid) } as i64);
                     let r = server.accept().map_err(|e| format!("{:?}", e));
                     let _ = tx.send(r);
                 });
+                s.accept_thread = Some(jh);
                 // wait until the thread sleeps in accept(2)
                 let tid = trx.recv().unwrap();
                 let mut asleep = false;
@@ -253,7 +255,13 @@ fn behaviour(b: &Value, mode: &str, all_names: &mut HashSet<String>) -> Value {
                         Err(()) => return fail(n, op, "accept did not return although a client had connected and sent".into()),
                     }
                 } else {
-                    match s.accepting.take().unwrap().recv_timeout(Duration::from_secs(10)) {
+                    let got = s.accepting.take().unwrap().recv_timeout(Duration::from_secs(10));
+                    if got.is_ok() {
+                        if let Some(jh) = s.accept_thread.take() {
+                            let _ = jh.join();
+                        }
+                    }
+                    match got {
                         Ok(r) => r,
                         Err(_) => return fail(n, op, "a blocked accept did not return after the client connected and sent".into()),
                     }
@@ -327,24 +335,32 @@ fn behaviour(b: &Value, mode: &str, all_names: &mut HashSet<String>) -> Value {
             _ => return fail(n, op, "unknown op".into()),
         }
     }
-    // tear down: everything the behaviour left alive
-    for (_, s) in srvs.drain() {
-        if let Some(acc) = s.accepting {
-            // an accept still asleep: wake it up with a throw-away client so that the thread ends
-            if let Ok(tx) = IpcSender::<OMsg>::connect(s.name.clone()) {
-                let _ = tx.send(make(0, false, false));
-            }
-            let _ = acc.recv_timeout(Duration::from_secs(5));
-        }
-        match s.client {
+    // tear down: everything the behaviour left alive, synchronously (nothing may finish in the background while
+    // the next behaviour is being measured)
+    for (_, mut s) in srvs.drain() {
+        // the client first: an accept that is waiting for this client's first message ends with its exit
+        match std::mem::replace(&mut s.client, Client::None) {
             Client::Proc(mut child, stdin, _) => {
                 drop(stdin);
                 let _ = child.wait();
             },
-            _ => {},
+            Client::Local(tx) => drop(tx),
+            Client::None => {},
         }
-        drop(s.server);
-        drop(s.rx);
+        if let Some(acc) = s.accepting.take() {
+            if acc.recv_timeout(Duration::from_millis(200)).is_err() {
+                // still asleep in accept(2): wake it up with a throw-away client
+                if let Ok(tx) = IpcSender::<OMsg>::connect(s.name.clone()) {
+                    let _ = tx.send(make(0, false, false));
+                }
+                let _ = acc.recv_timeout(Duration::from_secs(5));
+            }
+        }
+        if let Some(jh) = s.accept_thread.take() {
+            let _ = jh.join();
+        }
+        drop(s.server.take());
+        drop(s.rx.take());
     }
     json!({"id": id, "ok": true})
 }
